@@ -197,9 +197,7 @@ class RecipeGen:
         if len(recs) < 1 or r.random() > self.p.p_cycle:
             return False
         done = False
-        for _ in range(r.choice([1, 1, 2])):
-            a = r.choice(recs)
-            b = r.choice(recs)
+        def link(a, b):
             kind = r.choice(["a", "b", "kids", "named"])
             if kind in ("a", "b"):
                 self.steps.append(["set", a, kind, {"$r": b}])
@@ -207,6 +205,17 @@ class RecipeGen:
                 self.steps.append(["set", a, "kids", [{"$r": b}] + ([{"$r": r.choice(recs)}] if r.random() < 0.5 else [])])
             else:
                 self.steps.append(["set", a, "named", {"$d": {self.gen_key(): {"$r": b}}}])
+
+        for _ in range(r.choice([1, 1, 2])):
+            a = r.choice(recs)
+            b = r.choice(recs)
+            link(a, b)
+            if r.random() < 0.6:
+                link(b, a)  # guarantees a cycle (a self-loop when a is b)
+            if r.random() < 0.3:
+                c = r.choice(recs)
+                link(b, c)
+                link(c, a)
             done = True
         return done
 
